@@ -45,11 +45,25 @@ func cat(parts ...[]byte) []byte {
 func BytePool(r *rng.R, n int) [][]byte {
 	var out [][]byte
 	add := func(b []byte) { out = append(out, b) }
-	profile := r.Intn(7)
+	profile := r.Intn(8)
 	for len(out) < n {
 		p := profile
 		if profile == 6 {
 			p = r.Intn(6)
+		}
+		if profile == 7 {
+			// staircase: each key extends the previous one by a byte (dozens of nested inner nodes),
+			// with a sibling leaf at many levels
+			cur := fromAlphabet(r, smallAlphabet, r.Intn(3))
+			steps := 34 + r.Intn(30)
+			for i := 0; i < steps; i++ {
+				cur = cat(cur, []byte{smallAlphabet[r.Intn(len(smallAlphabet))]})
+				add(cur)
+				if r.Chance(1, 3) {
+					add(cat(cur, []byte{'~'}, fromAlphabet(r, tinyAlphabet, r.Intn(2))))
+				}
+			}
+			continue
 		}
 		switch p {
 		case 0: // tiny alphabet, many shared prefixes
